@@ -373,4 +373,10 @@ def run(ctx):
         x = dict(x)
         x["key"] = x["key"].replace("C02.holes", "C12.sinks").replace("C02.floor", "C12.floor")
         obs.append(x)
+    # resolved paths are constants too: the resolver only cuts at `/`, drops `.`, pops `..` and joins with `/` (C13.algo)
+    from rules.c13 import algo_rule
+    for x in algo_rule(ctx):
+        x = dict(x)
+        x["key"] = x["key"].replace("C13.algo", "C12.paths")
+        obs.append(x)
     return obs
